@@ -97,6 +97,11 @@ META = {
              "permutations, equal output components) through an LTI step (with / without constants, fed back), bmv, bvv, bvmv and the NLS "
              "linearisation; affine-exact oracle: for every component of f / g that is affine in state and input the code's A x' + B u' + c "
              "is compared with f(x', u', t*) far from the reference point (theorems nls_affine_exact, nls_affine_exact_obs)",
+    "pass8": "lesson 44: histories of converging reference points on one object (x_k = x_inf + d 10^-k and / or u_k, k = 1 … 14, same reference "
+             "time; then the limit, the limit again, the first point again), every read judged at its own requested point by the mpmath "
+             "Jacobians and the affine reproduction (failure messages carry both consecutive reference points); 12 % of the generated nls "
+             "cases + corpus 20-24; error paths (outside the property): a read after a raising set_refpoint may match the code's "
+             "partial update or atomic error paths (second model line, pf = 0)",
     "partial": ["IEEE rounding is not modelled: the float code is compared with the exact model at 64·eps·(sum of "
                 "absolute term magnitudes)",
                 "the explicit second-order constant (Fn.bnd, nls_second_order_explicit) is an upper bound, not the least constant",
@@ -1754,6 +1759,11 @@ def gen_nls_case(seed, quick):
             evs.insert(min(len(evs), pos + 1 + rng.randint(0, 2)), {"ev": "read"})
     if not any(e["ev"] == "read" for e in evs):
         evs.append({"ev": "read"})
+    # lesson 44: re-configuration with nearly identical arguments on ONE object — reference points converging to a limit,
+    # x_k = x_inf + d 10^-k (k = 1 … 14; state and / or input moving, the other fixed; same reference time), every one followed
+    # by a read that is judged at ITS OWN requested point; also returning to an earlier point and repeating one exactly
+    if rng.random() < 0.12:
+        evs = converge_events(rng, nx, nu, dtype, rng.sample(range(1, 15), rng.randint(3, 6)))
     case = {"kind": "nls", "seed": seed, "nx": nx, "nu": nu, "dtype": dtype, "fs": fs, "gs": gs, "events": evs, "slots": slots, "T0": 0, "passthrough": passthrough}
     # extreme-but-valid clocks with the lower-precision dtype: time stamps above 2^24 (float32) / 2^53 (float64), a UNIX
     # epoch; the user's functions subtract the epoch T0 in exact integer arithmetic
@@ -1764,9 +1774,39 @@ def gen_nls_case(seed, quick):
     for e_ in case["events"]:
         if e_["ev"] == "ref" and isinstance(e_.get("t"), dict) and "slot" not in e_["t"] and rng.random() < 0.35:
             e_["t"] = {"rel": rng.choice([-1, 0, 0, 1]), "as": "int64", "dim1": rng.random() < 0.3}
-        elif e_["ev"] == "assign" and "slot" not in e_["t"] and rng.random() < 0.15:
+        elif e_["ev"] == "assign" and "slot" not in e_["t"] and rng.random() < 0.15 and not (case["T0"] and e_ is case["events"][0]):
+            # (not the assignment that moves the history to its time base T0: the effective times t - T0 stay small by design)
             e_["t"] = {"rel": 0, "as": rng.choice(["py", "int64"])}
     return resolve_rel(case)
+
+
+def converge_events(rng, nx, nu, dtype, ks, moving=None, tmode=None):
+    """a history of set_refpoint calls whose arguments converge: x_k = x_inf + d 10^-k and / or u_k = u_inf + e 10^-k for the given
+    k (increasing: distances between consecutive requests from 1e-1 down to 1e-14), the same reference time every time
+    (a fixed int64 value, or None with no call in between), each followed by a read"""
+    xinf, uinf = gen_vals(rng, nx, dtype), gen_vals(rng, nu, dtype)
+    xinf = [v if abs(v) > 1e-3 and abs(v) < 50 else rng.uniform(0.5, 2.0) for v in xinf]
+    uinf = [v if abs(v) > 1e-3 and abs(v) < 50 else rng.uniform(0.5, 2.0) for v in uinf]
+    d = [rng.choice([-1, 1]) * rng.uniform(0.3, 1.0) for _ in range(nx)]
+    e = [rng.choice([-1, 1]) * rng.uniform(0.3, 1.0) for _ in range(nu)]
+    moving = moving or rng.choice(["x", "u", "xu", "xu", "alt"])
+    tmode = tmode or rng.choice(["value", "value", "none"])
+    tv = {"v": rng.randint(0, 9), "as": "int64", "dim1": rng.random() < 0.3}
+    evs = [{"ev": "call", "x": list(xinf), "u": list(uinf), "scalar": False, "lay": "c", "mode": "plain", "kw": False}]
+    for n_, k_ in enumerate(sorted(ks)):
+        mx = moving in ("x", "xu") or (moving == "alt" and n_ % 2 == 0)
+        mu = moving in ("u", "xu") or (moving == "alt" and n_ % 2 == 1)
+        xk = [a_ + (b_ * 10.0 ** -k_ if mx else 0.0) for a_, b_ in zip(xinf, d)]
+        uk = [a_ + (b_ * 10.0 ** -k_ if mu else 0.0) for a_, b_ in zip(uinf, e)]
+        evs.append({"ev": "ref", "x": xk, "u": uk, "t": None if tmode == "none" else dict(tv), "scalar": False, "lay": "c", "mode": "plain", "kw": rng.random() < 0.5})
+        evs.append({"ev": "read", "mode": "plain"})
+        if rng.random() < 0.2:
+            evs.append({"ev": "read", "mode": "plain"})
+    # the limit itself, the limit again (exactly the same point: nothing may change), and back to the first point
+    for xk, uk in ((xinf, uinf), (xinf, uinf), (evs[1]["x"], evs[1]["u"])):
+        evs.append({"ev": "ref", "x": list(xk), "u": list(uk), "t": None if tmode == "none" else dict(tv), "scalar": False, "lay": "c", "mode": "plain", "kw": False})
+        evs.append({"ev": "read", "mode": "plain"})
+    return evs
 
 
 def resolve_rel(case):
@@ -1826,23 +1866,27 @@ def make_nls(P, case):
     T0 = case.get("T0", 0)
     pt = case.get("passthrough") or {}
 
-    class TreeNLS(P.module.NLS):
-        def _vals(self, state, input, t):
-            # exact integer arithmetic on the time stamp BEFORE any float conversion (an int64 clock of 2^24 + 1, a UNIX
-            # epoch, 2^53 + 1 … minus the epoch of the experiment), as a user function with a large time base does
-            tt = (torch.as_tensor(t).reshape(()) - T0).to(state.dtype)
-            return [state[..., i] for i in range(nx)] + [input[..., j] for j in range(nu)] + [tt]
+    def vals_of(state, input, t):
+        # exact integer arithmetic on the time stamp BEFORE any float conversion (an int64 clock of 2^24 + 1, a UNIX
+        # epoch, 2^53 + 1 … minus the epoch of the experiment), as a user function with a large time base does
+        tt = (torch.as_tensor(t).reshape(()) - T0).to(state.dtype)
+        return [state[..., i] for i in range(nx)] + [input[..., j] for j in range(nu)] + [tt]
 
-        bad = False
+    # lesson 48: a harness-defined subclass of a library class defines NOTHING but the documented overrides
+    # (state_transition, observation; the properties A … c2 for LTI / LTV) and one collision-proof flag `vfh15_raise` —
+    # no underscore-private or short helper names a harmless refactor of the library could introduce itself
+    # (`_jac`, `_vals`, `_latch_io`, `_add_const`, …): helpers are closures outside the class
+    class TreeNLS(P.module.NLS):
+        vfh15_raise = False
 
         def state_transition(self, state, input, t=None):
-            if self.bad:
+            if self.vfh15_raise:
                 raise ValueError("user function raises")
             if pt.get("f") == "state":
                 return state                      # the callback returns its argument (the trees say f_i = x_i)
             if pt.get("f") == "input":
                 return input
-            vals, cache = self._vals(state, input, t), {}
+            vals, cache = vals_of(state, input, t), {}
             return torch.stack([tree_torch(f, vals, state.dtype, cache) for f in fs], -1)
 
         def observation(self, state, input, t=None):
@@ -1852,7 +1896,7 @@ def make_nls(P, case):
                 return state[..., :len(gs)]       # a view of the argument
             if pt.get("g") == "input":
                 return input
-            vals, cache = self._vals(state, input, t), {}
+            vals, cache = vals_of(state, input, t), {}
             return torch.stack([tree_torch(g_, vals, state.dtype, cache) for g_ in gs], -1)
     return TreeNLS()
 
@@ -1952,7 +1996,7 @@ def nls_model_events(case):
     return [(d["i"], d["tok"]) for d in nls_sim(case) if d["tok"] is not None]
 
 
-def nls_line(case, alias_t, alias_x):
+def nls_line(case, alias_t, alias_x, pf=1):
     toks = []
     T0, tv = case.get("T0", 0), case["nx"] + case["nu"]
 
@@ -1969,7 +2013,7 @@ def nls_line(case, alias_t, alias_x):
     ev = [tok for _, tok in nls_model_events(case)]
     # third flag 1: error paths as the code has them (a raising set_refpoint / forward leaves a partial update behind —
     # outside the property, see notes; the model follows the code there)
-    return f"c15.nls {alias_t} {alias_x} 1 0 {len(case['fs'])} {len(case['gs'])} " + " ".join(toks) + " " + " ".join(ev)
+    return f"c15.nls {alias_t} {alias_x} {pf} 0 {len(case['fs'])} {len(case['gs'])} " + " ".join(toks) + " " + " ".join(ev)
 
 
 def parse_nls_reply(rep, case):
@@ -2195,7 +2239,14 @@ def _check_nls(ctx: Ctx, case, model_doc=None, model_alias=None, oracle_budget=N
                     ts, mode = mk_time(e["t"]).item(), "value"          # int stays an exact int (clocks above 2^53)
                 # "t": the time as the user's functions see it (the integer offset T0 is subtracted exactly, before any
                 # float conversion); "tabs": the time stamp itself
-                ref = {"x": xs, "u": us, "t": ts - T0, "tabs": ts, "mode": mode, "clock": clock, "ok": True}
+                prev_ = ref if (ref is not None and ref.get("ok")) else None
+                ref = {"x": xs, "u": us, "t": ts - T0, "tabs": ts, "mode": mode, "clock": clock, "ok": True, "ev": i}
+                if prev_ is not None and len(prev_["x"]) == len(xs) and len(prev_["u"]) == len(us):
+                    dist_ = max([abs(a_ - b_) for a_, b_ in zip(prev_["x"] + prev_["u"], xs + us)] + [0.0])
+                    ref["where"] = (f"requested by set_refpoint at event {i}: x*={xs} u*={us} t*={ts}; the previous set_refpoint (event {prev_.get('ev', '?')}) was at "
+                                    f"x={prev_['x']} u={prev_['u']} t={prev_['tabs']}, max distance {dist_:.3e}; ")
+                else:
+                    ref["where"] = f"requested by set_refpoint at event {i}: x*={xs} u*={us} t*={ts}; "
             elif ref is not None:
                 ref["ok"] = False          # a failed set_refpoint may leave a partial update behind (modelled, not judged)
             clock_expect = clock
@@ -2218,7 +2269,7 @@ def _check_nls(ctx: Ctx, case, model_doc=None, model_alias=None, oracle_budget=N
             clock_expect = clock
             xa, ua = T(e["x"]), T(e["u"])
             handed += [[xa, xa.clone()], [ua, ua.clone()]]
-            sys_.bad = True
+            sys_.vfh15_raise = True
             try:
                 if k_ == "xraise":
                     sys_(xa, ua)
@@ -2228,7 +2279,7 @@ def _check_nls(ctx: Ctx, case, model_doc=None, model_alias=None, oracle_budget=N
             except ValueError:
                 escaped = True
             finally:
-                sys_.bad = False
+                sys_.vfh15_raise = False
             if not escaped:
                 ctx.fail({**strip(case), "at": i}, f"error-path: the exception raised by the user's function inside {'forward' if k_ == 'xraise' else 'set_refpoint'} did not reach the caller")
                 raise _Abort()
@@ -2333,7 +2384,9 @@ def _check_nls(ctx: Ctx, case, model_doc=None, model_alias=None, oracle_budget=N
             except Exception as ex:
                 parts, raised = None, ex
             have_ref = ref is not None
-            if md and ((md[1] == "E") != (raised is not None)):
+            if md and ((md[1] == "E") != (raised is not None)) and ma and ((ma[1] == "E") == (raised is not None)):
+                ctx.count("nls.read.atomic-error-path")
+            elif md and ((md[1] == "E") != (raised is not None)):
                 ctx.disagree("nls.read", {**strip(case), "at": i}, f"read outcome: implementation {'raised ' + type(raised).__name__ if raised else 'ok'}, model {md[1]}")
             if raised is not None:
                 if have_ref and ref["ok"]:
@@ -2395,14 +2448,14 @@ def _check_nls(ctx: Ctx, case, model_doc=None, model_alias=None, oracle_budget=N
                     ok &= nls_oracles(ctx, case, cinfo, sys_, ref, got, eps, dt, rr, full)
                 if verdict_doc is not None and not verdict_doc[0]:
                     if verdict_alias is not None and verdict_alias[0]:
-                        ctx.count("nls.read.alias-behaviour")
+                        ctx.count("nls.read.atomic-error-path")
                         if not (have_ref and ref["ok"]):
                             pass
                     else:
                         q_ = verdict_doc[1]
                         ctx.disagree("nls.read", {**strip(case), "at": i},
                                      f"read at event {i}: flattened entry {q_} implementation {flat_got[q_] if q_ is not None and q_ >= 0 else '?'} "
-                                     f"model(doc) {float(md[2][2][q_]) if q_ is not None and q_ >= 0 else '?'}; matches neither the documented nor the clock-buffer semantics")
+                                     f"model(doc) {float(md[2][2][q_]) if q_ is not None and q_ >= 0 else '?'}; differs from the model of the code (and from the variant with atomic error paths)")
         now = clk(ctx, strip(case), sys_, i, k_)
         if now != clock_expect:
             ctx.fail({**strip(case), "at": i}, f"clock-law: after event {i} ({k_}{' ' + e['op'] if k_ == 'twin' else ''}) systime={now}, the law gives {clock_expect}")
@@ -2459,20 +2512,25 @@ def nls_oracles(ctx, case, cinfo, sys_, ref, got, eps, dt, rr, full):
     if full:
         for trees, ja, jb in ((case["fs"], "A", "B"), (case["gs"], "C", "D")):
             for r_, tr in enumerate(trees):
-                _, dm = tree_mag(tr, ea, nv)
+                mg0, dm = tree_mag(tr, ea, nv)
                 fac = 64 * eps * max(1.0, tree_size(tr) / 24.0)
+                # numerical differentiation cancels terms of the size of the VALUE of the tree: with a term of size 1e47 next to
+                # the variable (a power of a huge effective time) 50 digits leave 3 — the working precision follows the magnitude
+                # (found by thorough seed 1 of pass 8: the oracle, not the code, was off by 3e-13)
+                dps_ = 50 + 2 * int(math.log10(1.0 + mg0 + max(dm[:nx + nu] + [0.0])))
                 for v in range(nx + nu):
                     def phi(s, tr=tr, v=v):
                         env = list(env0)
                         env[v] = s
                         return tree_mp(tr, env)
-                    want = mp.diff(phi, env0[v])
+                    with mp.workdps(dps_):
+                        want = +mp.diff(phi, env0[v])
                     nm, col, ncol = (ja, v, nx) if v < nx else (jb, v - nx, nu)
                     gv = got[nm][r_ * ncol + col]
                     tol = fac * dm[v] + 1e-18 * (1 + dm[v]) + floor_(case["dtype"], dm[v], 4 * tree_size(tr))
                     if not (abs(mp.mpf(gv) - want) <= tol):
                         ctx.fail(cinfo, f"jacobian: {nm}[{r_}][{col}] = {gv!r} but the partial derivative at (x*,u*,t*={ts}) is {float(want)!r} "
-                                        f"(|diff| {float(abs(mp.mpf(gv) - want)):.3e} > {tol:.2e}; ref set at clock {ref['clock']} mode {ref['mode']}, read at clock {cinfo['read_clock']})",
+                                        f"(|diff| {float(abs(mp.mpf(gv) - want)):.3e} > {tol:.2e}; {ref.get('where', '')}ref set at clock {ref['clock']} mode {ref['mode']}, read at clock {cinfo['read_clock']})",
                                  known_matcher=km)
                         ok = False
     # (2) the affine model reproduces f, g at the reference point (f, g through the real methods at t*)
@@ -2494,7 +2552,7 @@ def nls_oracles(ctx, case, cinfo, sys_, ref, got, eps, dt, rr, full):
             tol = 64 * eps * max(1.0, tree_size(tr) / 24.0) * scale + floor_(case["dtype"], scale, 4 * tree_size(tr))
             if not (abs(float(pred[r_] - want[r_])) <= tol):
                 ctx.fail(cinfo, f"affine: ({'A' if nm == 'f' else 'C'} x* + {'B' if nm == 'f' else 'D'} u* + c)[{r_}] = {float(pred[r_])!r} but {nm}(x*,u*,t*={ts})[{r_}] = {float(want[r_])!r} "
-                                f"(tol {tol:.2e}; ref set at clock {ref['clock']} mode {ref['mode']}, read at clock {cinfo['read_clock']})", known_matcher=km)
+                                f"(tol {tol:.2e}; {ref.get('where', '')}ref set at clock {ref['clock']} mode {ref['mode']}, read at clock {cinfo['read_clock']})", known_matcher=km)
                 ok = False
     # (2b) components that are affine in state and input (full- / partial-state observations, f = u, LTV systems written as
     #      NLS …): the affine model is EXACT at every point, not only near the reference point (theorems nls_affine_exact,
@@ -2518,7 +2576,7 @@ def nls_oracles(ctx, case, cinfo, sys_, ref, got, eps, dt, rr, full):
                 if not (abs(mp.mpf(float(pred[r_])) - want) <= tol):
                     ctx.fail(cinfo, f"affine-exact: component {r_} of {nm} is affine in state and input, but ({'A' if nm == 'f' else 'C'} x' + {'B' if nm == 'f' else 'D'} u' + c)[{r_}] = "
                                     f"{float(pred[r_])!r} at x'={xp.tolist()} u'={up.tolist()} (reference point x*={ref['x']} u*={ref['u']} t*={ts}) while {nm}(x',u',t*)[{r_}] = {float(want)!r} "
-                                    f"(tol {tol:.2e}; ref set at clock {ref['clock']} mode {ref['mode']}, read at clock {cinfo['read_clock']})", known_matcher=km)
+                                    f"(tol {tol:.2e}; {ref.get('where', '')}ref set at clock {ref['clock']} mode {ref['mode']}, read at clock {cinfo['read_clock']})", known_matcher=km)
                     ok = False
     # (3) second-order error: |f(p*+h d) - affine(p*+h d)| <= K with the explicit constant of the Lean model
     #     (`Fn.bnd`, theorem nls_second_order_explicit; evaluated by the driver op c15.bnd, checked in flush_second_order)
@@ -2543,7 +2601,7 @@ def nls_oracles(ctx, case, cinfo, sys_, ref, got, eps, dt, rr, full):
                     line = "c15.bnd " + " ".join(tree_tokens(tr, [])) + f" {nv} " + wire_list(ea2) + " " + wire_list(da)
                     PENDING2.append((cinfo, line, float(err), rounding,
                                      f"second-order: |affine - {nm}|[{r_}] at distance h={h:g} is {float(err):.3e} > K + rounding = %s "
-                                     f"(K = explicit second-order constant of the model; ref set at clock {ref['clock']} mode {ref['mode']}, read at clock {cinfo['read_clock']})"))
+                                     f"(K = explicit second-order constant of the model; {ref.get('where', '')}ref set at clock {ref['clock']} mode {ref['mode']}, read at clock {cinfo['read_clock']})"))
     return ok
 
 
@@ -2568,11 +2626,18 @@ def run_nls(ctx: Ctx, cases, oracle_reads):
     lines = []
     for case in cases:
         lines.append(nls_line(case, 0, 0))       # the reference point is a snapshot (documented = code since D32/D38)
+    # error paths are outside the property (scope rule; notes "NLS error paths"): what a set_refpoint that raises leaves behind
+    # is an observation, not a clause. The first model follows today's code (statement-by-statement partial update); for
+    # histories that can contain a raising set_refpoint the variant with ATOMIC error paths is evaluated too and a read that
+    # matches either is no disagreement (an implementation that validates its arguments first is as good)
+    errp = [k_ for k_, case in enumerate(cases) if any(e_["ev"] in ("refraise", "xraise") or (e_["ev"] == "ref" and (e_.get("x") is None or e_.get("u") is None)) for e_ in case["events"])]
+    lines += [nls_line(cases[k_], 0, 0, pf=0) for k_ in errp]
     reps = ctx.driver.run(lines)
+    alt = {k_: reps[len(cases) + j_] for j_, k_ in enumerate(errp)}
     budget = [oracle_reads]
     for k_, case in enumerate(cases):
         md = parse_nls_reply(reps[k_], case)
-        check_nls(ctx, case, md, None, budget)
+        check_nls(ctx, case, md, parse_nls_reply(alt[k_], case) if k_ in alt else None, budget)
         if len(PENDING2) > 4000:
             flush_second_order(ctx)
         ops = {}
@@ -3655,6 +3720,18 @@ _T3 = ("V", 3)
 NLS_CORPUS += [_pt(18, 2, 1, [("+", ("+", ("*", _T3, _X0), ("*", ("C", False, 2, 1), ("V", 2))), ("K", _T3)), ("+", ("-", _X1, ("*", ("C", False, 1, 2), _X0)), ("*", ("S", _T3), ("V", 2)))],
                    [("+", _X0, _X1), ("*", ("P", _T3, 2), ("V", 2)), ("*", _X0, ("V", 2))], {}),
                _pt(19, 1, 1, [("-", ("*", ("C", True, 3, 4), _X0), ("~", ("V", 1)))], [("*", ("K", ("V", 2)), _X0), ("C", False, 5, 2)], {}, "float32")]
+# lesson 44: converging reference points on one object, k = 1 … 14 (distances 1e-1 … 1e-14), state / input / both / alternating
+# moving, reference time fixed or defaulted; f, g nonlinear so that the Jacobians and c1, c2 move with the point
+def _conv(k, nx, nu, fs, gs, moving, tmode, ks, dtype="float64"):
+    return _nls(k, nx, nu, fs, gs, converge_events(random.Random(4400 + k), nx, nu, dtype, ks, moving, tmode), dtype=dtype)
+
+
+_U1 = ("V", 1)
+NLS_CORPUS += [_conv(20, 1, 1, [("+", ("S", _X0), ("*", _X0, _U1))], [("P", _X0, 2), ("K", _U1)], "x", "value", range(1, 15)),
+               _conv(21, 1, 1, [("*", ("S", _X0), ("K", _U1))], [("*", _U1, _U1)], "u", "value", range(1, 15)),
+               _conv(22, 2, 1, [("*", _X0, _X1), ("+", ("S", _X1), ("P", ("V", 2), 2))], [("*", ("K", _X0), ("V", 2))], "xu", "none", range(1, 15)),
+               _conv(23, 1, 1, [("P", _X0, 3)], [("*", _X0, ("S", _U1))], "alt", "value", range(1, 15)),
+               _conv(24, 1, 1, [("+", ("P", _X0, 2), ("S", _U1))], [("*", _X0, _U1)], "xu", "value", range(1, 8), "float32")]
 # a deep copy taken after set_refpoint: copy and original stepped / reset in turn; both keep their own time in f, g and both
 # keep the reference point
 NLS_CORPUS.append(_nls(6, 1, 1, [("+", ("*", _X0, ("V", 2)), ("V", 1))], [("*", _X0, ("V", 2))],
@@ -3735,9 +3812,9 @@ def run(ctx: Ctx):
     run_big(ctx, [dict(c) for k_, c in enumerate(BIG_CORPUS) if (not q or k_ in BIG_QUICK)] + [gen_big_case(s, q) for s in seeds(ctx.pick(2, 30))])
     run_clock(ctx, [gen_clock_case(s, q) for s in seeds(ctx.pick(600, 6000))])
     run_multi(ctx, [gen_multi_case(s, q) for s in seeds(ctx.pick(400, 5000))])
-    run_lin(ctx, [gen_lin_case(s, q) for s in seeds(ctx.pick(600, 8000))])
+    run_lin(ctx, [gen_lin_case(s, q) for s in seeds(ctx.pick(520, 8000))])
     run_bmv(ctx, [gen_bmv_case(s, q) for s in seeds(ctx.pick(300, 5000))])
-    run_nls(ctx, [gen_nls_case(s, q) for s in seeds(ctx.pick(500, 7000))], ctx.pick(600, 9000))
+    run_nls(ctx, [gen_nls_case(s, q) for s in seeds(ctx.pick(420, 7000))], ctx.pick(450, 9000))
 
 
 def search(ctx: Ctx):
